@@ -80,12 +80,12 @@ def rule_println_forced(ctx, crate, rule="R-PRINTLN-FORCED"):
     ctx.floor(rule, n, 6, cfg, "println forcing obligations")
 
 
-def uses_of_field_ref(b, field, adt=None):
+def uses_of_field_ref(b, field, adt=None, include_forward=False):
     """Calls that receive (a reborrow of) a reference to `field`: list of (call, arg index)."""
     refs = b.ref_origins()
     out = []
     for c in b.calls():
-        if c.matches(*b.REF_FORWARD):
+        if not include_forward and c.matches(*b.REF_FORWARD):
             continue
         for k, a in enumerate(c.args):
             l = operand_local(a)
